@@ -19,6 +19,8 @@ LEVEL = "exploration"
 CASES = {"quick": 330, "thorough": 8000}
 WALL_CAP = {"quick": 1500, "thorough": 5 * 3600}
 RELATIONS = ["repeat", "host", "history", "order", "subset"]
+CRASH_WORLDS = {"quick": 1, "thorough": 6}
+CRASH_STRIDE = {"quick": 3, "thorough": 1}
 RULE = ("one case = a reference run of a generated valid world (all instants distinct) + option tuple in a pristine directory under the "
         "baseline host, plus 2-3 perturbed runs chosen from: repeat, host (clock epoch/tick/jumps, hash seed, ASLR, TZ/locale/LOG_LEVEL, "
         "path style, cwd layout, prefix), history (0-3 earlier real runs into the same cwd/output directory, some crashed / I/O-faulted / "
@@ -32,7 +34,7 @@ ASSUMPTIONS = [
     "portfolio-relative cells of open_positions (weights, row-numbered formulas) are excluded from the asset-subset relation",
 ]
 PROBES = ["reference_failed", "history_crashed_run", "history_io_faulted_run", "history_input_faulted_run", "history_left_torn_tmp", "stale_same_name_report_replaced",
-          "order_permutation_changed_bytes", "subset_two_assets_share_row_numbers", "subset_with_window", "host_jump_fired", "multi_asset_case"]
+          "order_permutation_changed_bytes", "subset_two_assets_share_row_numbers", "subset_with_window", "host_jump_fired", "multi_asset_case", "crash_point_sweep"]
 
 
 def make_case(seed, facts, index=0):
@@ -44,6 +46,10 @@ def make_case(seed, facts, index=0):
            or "unique_id" not in base["world"]["headers"]["INTRA"]) and tries < 20:
         base = c16.make_case(rng.randint(0, 2**62), facts, index)
         tries += 1
+    # the order / subset / repeat relations are most sensitive under the methods that rank lots (ties, heaps, caches): give them more weight
+    fm = [m for m in facts[base["opts"]["country"]]["methods"] if m != "fifo"]
+    if fm and not base["world"].get("methods") and rng.random() < 0.5:
+        base["opts"]["method"] = rng.choice(fm)
     base["property"] = PROP
     base["seed"] = seed
     base["host"] = dict(gen.BASE_HOST)
@@ -68,6 +74,9 @@ def _make_relation(rng, kind, base, facts):
         rel["files_in"] = rng.choice(["", "inputs/", "cfg dir/"])
         rel["prefix"] = rng.choice([None, None, "p2_", ""])
         rel["outdir"] = rng.choice([None, "elsewhere/out", "ABS"])
+        # the same bytes under other file names and with other modification times
+        rel["file_names"] = rng.choice([None, None, ["my config.ini", "Übersicht 2021.ods"], ["c.INI", "input.v2.ods"], ["2023.ini", "2023.ods"]])
+        rel["input_mtime"] = rng.choice([None, None, 86400, 946684800, 4102444800])
     elif kind == "history":
         runs = []
         for _ in range(rng.choice([1, 1, 2, 3])):
@@ -80,6 +89,16 @@ def _make_relation(rng, kind, base, facts):
                 o["from"], o["to"] = f, t
                 if rng.random() < 0.3 and not base["world"].get("methods"):
                     o["method"] = rng.choice(facts[o["country"]]["methods"])
+                if rng.random() < 0.3 and not o.get("asset"):
+                    o["asset"] = rng.choice(sorted(s["name"] for s in base["world"]["sheets"]))
+                h["opts"] = o
+            elif k < 0.7:
+                # a sibling input: the same assets, exchanges, holders and column layout with other figures (all prices scaled, some sheets
+                # or trailing rows missing) run with the options of the run under test - what "last year's file" or "the corrected file" looks like
+                h["world"] = sibling_world(rng, base["world"])
+                o = dict(base["opts"])
+                if rng.random() < 0.4:
+                    o["asset"] = rng.choice(sorted(s["name"] for s in base["world"]["sheets"]))
                 h["opts"] = o
             else:
                 other = c16.make_case(rng.randint(0, 2**62), facts)
@@ -107,6 +126,11 @@ def _make_relation(rng, kind, base, facts):
         names = sorted(s["name"] for s in base["world"]["sheets"])
         rel["asset"] = rng.choice(names)
         rel["via"] = rng.choice(["option", "world", "both"])
+        others = [n for n in names if n != rel["asset"]]
+        if len(others) >= 2 and rng.random() < 0.6:
+            # a proper multi-asset subset: X together with some, not all, of the other assets
+            keep = rng.sample(others, rng.randint(1, len(others) - 1))
+            rel["keep"] = sorted(keep + [rel["asset"]])
     return rel
 
 
@@ -119,7 +143,32 @@ def valid_case(case):
     for rel in case["relations"]:
         if rel["kind"] == "subset" and (rel["asset"] not in names or len(names) < 2 or case["opts"].get("asset")):
             return False
+        if rel["kind"] == "subset" and rel.get("keep") and not set(rel["keep"]) <= set(names):
+            return False
     return bool(case["relations"])
+
+
+def sibling_world(rng, world):
+    """Same names and layout, other content: prices scaled, optional fiat columns dropped, possibly fewer sheets / rows."""
+    from decimal import Decimal  # pylint: disable=import-outside-toplevel
+
+    w2 = W.clone(world)
+    factor = rng.choice([Decimal("0.5"), Decimal(2), Decimal(3)])
+    for _, _, r in W.all_rows(w2):
+        if r.get("spot_price") is not None:
+            v = W.D(r["spot_price"]) * factor
+            r["spot_price"] = v if v < 30000 else W.D(r["spot_price"])
+        for f in ("fiat_in_no_fee", "fiat_in_with_fee", "fiat_out_no_fee", "fiat_fee"):
+            if r.get(f) is not None and not (f == "fiat_fee" and "crypto_in" in r):
+                r[f] = None
+        if r.get("notes"):
+            r["notes"] = "sibling"
+    if len(w2["sheets"]) > 1 and rng.random() < 0.5:
+        drop = rng.choice(w2["sheets"])["name"]
+        w2["sheets"] = [s for s in w2["sheets"] if s["name"] != drop]
+        if rng.random() < 0.5:
+            w2["assets"] = [a for a in w2["assets"] if a != drop]
+    return w2
 
 
 def permute_storage(world, seed):
@@ -136,9 +185,10 @@ def permute_storage(world, seed):
 
 
 def reduce_world_to(world, asset):
+    keep = [asset] if isinstance(asset, str) else list(asset)
     w2 = W.clone(world)
-    w2["sheets"] = [s for s in w2["sheets"] if s["name"] == asset]
-    w2["assets"] = [asset]
+    w2["sheets"] = [s for s in w2["sheets"] if s["name"] in keep]
+    w2["assets"] = [a for a in w2["assets"] if a in keep]
     w2["extra_sheets"] = []
     return w2
 
@@ -208,6 +258,10 @@ def exec_case(case, facts, src=None):
                     o2["prefix"] = rel["prefix"]
                 if rel.get("outdir") is not None:
                     o2["outdir"] = rel["outdir"]
+                if rel.get("file_names"):
+                    o2["file_names"] = rel["file_names"]
+                if rel.get("input_mtime") is not None:
+                    o2["input_mtime"] = rel["input_mtime"]
                 w1, f1 = core.layout_case("c17p", world, o2, [])
                 worlds.append(w1)
                 res = runner.run(w1, f1, o2, host=rel["host"], dump=True, keep_content=True, src=src)
@@ -215,7 +269,7 @@ def exec_case(case, facts, src=None):
                 perts = core.host_perturbations(rel["host"])
                 for p in perts:
                     stats["pert:" + p] = stats.get("pert:" + p, 0) + 1
-                for key in ("path_style", "files_in", "prefix", "outdir"):
+                for key in ("path_style", "files_in", "prefix", "outdir", "file_names", "input_mtime"):
                     if o2.get(key) != opts.get(key):
                         stats["pert:" + key] = stats.get("pert:" + key, 0) + 1
                         perts.append(key)
@@ -235,7 +289,7 @@ def exec_case(case, facts, src=None):
                     cfg, ods = W.materialize(hw)
                     io_faults, crash_at = None, None
                     if h["mode"] == "input_fault":
-                        allf = faults.enumerate_faults(hw, ho, facts)
+                        allf = faults.enumerate_faults(hw, ho, facts) + faults.enumerate_oddities(hw, ho)
                         cfg, ods, ho = faults.apply_fault(hw, ho, allf[h["fault_pick"] % len(allf)])
                         ho.pop("cmd_fault", None)
                     elif h["mode"] == "io_fault":
@@ -260,7 +314,7 @@ def exec_case(case, facts, src=None):
                         stats["probe:history_input_faulted_run"] = 1
                     if any(p.endswith(".tmp") for p in core.snapshot_diff(hr)):
                         stats["probe:history_left_torn_tmp"] = 1
-                    modes.append("%s:%s" % (m, "same" if h["world"] == "same" else "other"))
+                    modes.append("%s:%s" % (m, "same" if h["world"] == "same" else ("sibling" if [s["name"] for s in hw["sheets"]] and set(s["name"] for s in hw["sheets"]) <= set(assets) else "other")))
                 res = runner.run(w1, f1, opts, host=rel["host"], dump=True, keep_content=True, src=src)
                 stats["runs"] += 1
                 if any(e["ev"] == "os.remove" and e["targets"][0]["cls"] == "output" for e in core.events(res)):
@@ -303,6 +357,8 @@ def exec_case(case, facts, src=None):
                     variants.append(("subset-a", world, dict(opts, asset=x)))
                 if rel["via"] in ("world", "both"):
                     variants.append(("subset-world", reduce_world_to(world, x), dict(opts)))
+                if rel.get("keep") and set(rel["keep"]) < set(assets) and x in rel["keep"]:
+                    variants.append(("subset-world-multi", reduce_world_to(world, rel["keep"]), dict(opts)))
                 for vkind, vw, vo in variants:
                     w1, f1 = core.layout_case("c17s", vw, vo, [])
                     worlds.append(w1)
@@ -358,9 +414,12 @@ def reduce_candidates(case):
             if rel["host"].get(k) != v:
                 yield dict(c, relations=[dict(rel, host=dict(rel["host"], **{k: v}))])
     if rel["kind"] == "host":
-        for k, dflt in (("path_style", c["opts"].get("path_style")), ("files_in", c["opts"].get("files_in")), ("prefix", None), ("outdir", None)):
+        for k, dflt in (("path_style", c["opts"].get("path_style")), ("files_in", c["opts"].get("files_in")), ("prefix", None), ("outdir", None),
+                        ("file_names", None), ("input_mtime", None)):
             if rel.get(k) != dflt:
                 yield dict(c, relations=[dict(rel, **{k: dflt})])
+    if rel["kind"] == "subset" and rel.get("keep"):
+        yield dict(c, relations=[dict(rel, keep=None)])
     if rel["kind"] == "subset" and rel["via"] == "both":
         yield dict(c, relations=[dict(rel, via="option")])
         yield dict(c, relations=[dict(rel, via="world")])
@@ -375,3 +434,45 @@ def reduce_candidates(case):
         yield dict(c, world=w2)
     for w2 in world_reductions(c["world"]):
         yield dict(c, world=w2)
+
+
+def extra_phase(tier, master, facts, src, log):
+    """Crash-restart sweep: for a few fixed worlds the same run is first killed at I/O step k (every k in thorough, every third in
+    quick) and then executed again on the surviving directory; the second execution must equal the reference run in a pristine
+    directory (exit status, report contents, computed data) - whatever the crash left behind must not matter."""
+    import os  # pylint: disable=import-outside-toplevel
+
+    from .. import engine  # pylint: disable=import-outside-toplevel
+
+    n_worlds = int(os.environ.get("RP2SIM_CRASH_WORLDS", "0")) or CRASH_WORLDS[tier]
+    stride = CRASH_STRIDE[tier]
+    cases = []
+    info = []
+    for k in range(n_worlds):
+        base = None
+        for t in range(40):
+            base = c16.make_case(gen.case_seed(master, PROP + "-crash", k * 100 + t), facts, 0)
+            if W.distinct_instants(base["world"]) and all("unique_id" in base["world"]["headers"][x] for x in ("IN", "OUT", "INTRA")):
+                break
+        base.update({"property": PROP, "host": dict(gen.BASE_HOST), "prestate": [], "readonly_inputs": False})
+        w, files = core.layout_case("c17n", base["world"], base["opts"], [])
+        try:
+            probe = runner.run(w, files, base["opts"], host=base["host"], crash_at=10**9, src=src)  # never fires; counts the crash points
+        finally:
+            w.cleanup()
+        steps = (probe.get("child") or {}).get("io_steps") or 0
+        points = list(range(1 + (k % stride), steps + 1, stride))
+        info.append({"world_seed": base["seed"], "entry_point": base["opts"]["country"], "io_steps": steps, "crash_points_used": len(points), "stride": stride,
+                     "fault_free_exit": probe["rc"]})
+        chunk = 8
+        for j in range(0, len(points), chunk):
+            rels = [{"kind": "history", "runs": [{"mode": "crash", "world": "same", "opts": dict(base["opts"]), "crash_at": at}], "residue": [],
+                     "host": dict(gen.BASE_HOST)} for at in points[j:j + chunk]]
+            cases.append(dict(base, relations=rels, index=3 * 10**9 + k * 10**5 + j))
+    outs = engine.run_cases(PROP, cases, src=src)
+    for o in outs:
+        if "stats" in o:
+            o["stats"]["probe:crash_point_sweep"] = 1
+            o["stats"]["crash_point_sweep_runs"] = o["stats"].get("runs", 0)
+    log("C17 crash-restart sweep: %d worlds, %d crash points (stride %d), each followed by the run under test" % (n_worlds, sum(i["crash_points_used"] for i in info), stride))
+    return outs, {"coverage": {"crash_points_enumerated": info}}
